@@ -563,3 +563,108 @@ class INVERT:
     returns_by_case = {"negation": {"cancels": "result is at(cls.args, 0)"},
                        "other": {"negates": "made_by(result, '~') and nargs(result) == 1 and argat(result, 0) is cls"}}
     only_raises = []
+
+
+# ------------------------------------------------------------------------------------ LogicalMeta: the operators of data classes (utype/schema.py)
+
+SCH = "utype/schema.py"
+
+
+class _DataClassOperand(RecordModel):
+    """a data class as an operand of &, |, ^, ~: a class built by LogicalMeta; its `__logical_type__` is LogicalType"""
+
+    def getattr(self, ex, rec, name, node):
+        if name == "__logical_type__":
+            return ex.world.models["LogicalClass"].class_model.class_value(ex) if hasattr(ex.world.models["LogicalClass"], "class_model") \
+                else ex.world.repo_class(R, "LogicalType", ex)
+        return RecordModel.getattr(self, ex, rec, name, node)
+
+    def isinstance_(self, ex, rec, c):
+        return z3.BoolVal(c.py in (object, type))
+
+
+def _install_meta(world):
+    world.models["DataClassOperand"] = _DataClassOperand(world, SCH, "LogicalMeta", {})
+    world.ext_table["typing.Union"] = VOpaque("typing.Union")
+
+
+_C.INSTALLERS.append(_install_meta)
+
+
+def _meta_setup(ex, frame):
+    o = frame.env.get("other")
+    if isinstance(o, VObj):
+        # a plain operand: neither a combination / Rule (LogicalType), nor a typing.Union alias, nor a tuple
+        lt = ex.world.repo_class(R, "LogicalType", ex)
+        ex.assume(z3.Not(sym.sub(sym.ty(o.t), lt.t)))
+        ex.assume(z3.Not(sym.sub(sym.ty(o.t), ex.world.classes.of_py(tuple).t)))
+        ex.assume(z3.Not(sym.hasattr_f(sym.ty(o.t), z3.StringVal("__origin__"))))
+
+
+def _meta_op(name, op, reverse):
+    first, second = ("other", "cls") if reverse else ("cls", "other")
+
+    @contract(SCH, "LogicalMeta." + name, props=["C09"])
+    class _:
+        __doc__ = ("`%s` of a data class with a plain operand: the combination %s %s %s, operands in reading order "
+                   "(the data-class side of `Construction obeys the algebra users rely on`)" % (name, first, op, second))
+        cases = {"plain-operand": dict(cls=Rec("DataClassOperand"), other=OBJ_NN)}
+        returns = {"operator": "made_by(result, '%s')" % op, "two_operands": "nargs(result) == 2",
+                   "reading_order": "argat(result, 0) is %s and argat(result, 1) is %s" % (first, second)}
+        only_raises = ["Exception"]
+        setup = staticmethod(_meta_setup)
+    return _
+
+
+for _nm, _op, _rev in (("__and__", "&", False), ("__rand__", "&", True), ("__or__", "|", False), ("__ror__", "|", True),
+                       ("__xor__", "^", False), ("__rxor__", "^", True)):
+    _meta_op(_nm, _op, _rev)
+
+
+@contract(SCH, "LogicalMeta.__invert__", props=["C09"])
+class META_INVERT:
+    cases = {"any": dict(cls=Rec("DataClassOperand"))}
+    returns = {"negates": "made_by(result, '~') and nargs(result) == 1 and argat(result, 0) is cls"}
+    only_raises = ["Exception"]
+
+
+# ------------------------------------------------------------------------------------ C01: induction step for unions and conjunctions
+
+from contracts.parsing import conf as _conf_fn
+
+
+@specfn("every_argument_conversion_conforms")
+def _every_arg_conforms(ex, fr, cls):
+    """INDUCTION HYPOTHESIS of C01 for the arguments of a combination: under ANY conversion mode (the union stages use
+    three), what argument i accepts it turns into a value conforming to argument i"""
+    a = cls.fields["args"]
+    x = z3.Const("x!ihl", V)
+    i = z3.Int("i!ihl")
+    nec, ndl = z3.Const("nec!ihl", B), z3.Const("ndl!ihl", B)
+    t = z3.Select(a.arr, i)
+    return VBool(z3.ForAll([i, x, nec, ndl], z3.Implies(z3.And(i >= 0, i < a.n, accepts_t(t, x, nec, ndl)),
+                                                       _conf_fn(converted_t(t, x, nec, ndl), t))))
+
+
+@specfn("conforms_to")
+def _conforms_to(ex, fr, v, t):
+    return VBool(_conf_fn(ex.box(v), ex.box(t)))
+
+
+@lemma("C01_union_result_conforms_to_an_argument", props=["C01", "C09"],
+       cases={"|,fail-fast": dict(cls=LOGICAL("|"), value=OBJ,
+                                  context=Rec("RuntimeContext", options=Rec("Options", collect_errors=FALSE, max_errors=NONE)))})
+def _union_conforms(cls, value, context):
+    """C01 / C09 `returning a value that conforms to an accepting argument`: induction step for unions, over the CONTRACT of
+    logical_parse: whatever a union returns conforms to one of its arguments (a value of exactly an argument's type
+    conforms to it by the hypothesis' second half, stated here as an assumption on exact types)."""
+    assume(len(cls.args) > 0)
+    assume(forall(len(cls.args), lambda i: at(cls.args, i) is not None))
+    assume(len(context.tmp_errors) == 0 and len(context.errors) == 0)
+    assume(every_argument_conversion_conforms(cls))
+    assume(forall(len(cls.args), lambda i: implies(exact_at(cls, value, i), conforms_to(value, at(cls.args, i)))))
+    try:
+        r = call("utype/parser/rule.py", "LogicalType.logical_parse", cls, value, context)
+    except ParseError:
+        return
+    assert exists(len(cls.args), lambda i: conforms_to(r, at(cls.args, i))), "result_conforms_to_some_argument"
